@@ -303,6 +303,7 @@ inductive S where
 	inputLoop(c, vx, &sb)
 	savedWrites(c, &sb)
 	startupSkeleton(c, vx, &sb)
+	killSignals(c, &sb)
 	sb.WriteString("end VaxisModel.Gen.Modes\n")
 	c.Write("Modes.lean", sb.String())
 }
@@ -388,6 +389,54 @@ func savedWrites(c *ex.Ctx, sb *strings.Builder) {
 // startupSkeleton: the order in which `New` calls the lifecycle functions, whether openTty installs a new
 // writer, and how newWriter creates its buffer (the model's `fresh` flag stands for the 8192 NUL bytes
 // the buffer is created with). Missing pieces degrade to "unknown".
+// killSignals (round 4): which signals setupSignals (vaxis_unix.go) routes to chSigKill — the kill arm of the
+// input goroutine — and under which condition: the statements of setupSignals up to that signal.Notify call
+// that can keep it from being reached (an enclosing `if`, an earlier `return`).  Missing → "unknown".
+func killSignals(c *ex.Ctx, sb *strings.Builder) {
+	sigs := []string{ex.LeanStr("unknown")}
+	guard := "unknown"
+	if f := c.Parse("vaxis_unix.go"); f != nil {
+		if fd := ex.FindFunc(f, "Vaxis", "setupSignals"); fd != nil {
+			var conds []string
+			found := false
+			var walk func(l []ast.Stmt, enclosing []string)
+			walk = func(l []ast.Stmt, enclosing []string) {
+				for _, st := range l {
+					if found {
+						return
+					}
+					switch x := st.(type) {
+					case *ast.ReturnStmt:
+						conds = append(conds, "return-before["+strings.Join(enclosing, " && ")+"]")
+					case *ast.IfStmt:
+						walk(x.Body.List, append(append([]string{}, enclosing...), c.Src(x.Cond)))
+						if x.Else != nil {
+							if b, ok := x.Else.(*ast.BlockStmt); ok {
+								walk(b.List, append(append([]string{}, enclosing...), "!("+c.Src(x.Cond)+")"))
+							}
+						}
+					case *ast.ExprStmt:
+						if ce, ok := x.X.(*ast.CallExpr); ok && c.Src(ce.Fun) == "signal.Notify" && len(ce.Args) >= 1 && c.Src(ce.Args[0]) == "vx.chSigKill" {
+							found = true
+							sigs = nil
+							for _, a := range ce.Args[1:] {
+								sigs = append(sigs, ex.LeanStr(c.Src(a)))
+							}
+							conds = append(conds, enclosing...)
+						}
+					}
+				}
+			}
+			walk(fd.Body.List, nil)
+			if found {
+				guard = strings.Join(conds, " ; ")
+			}
+		}
+	}
+	fmt.Fprintf(sb, "/-- The signals `setupSignals` routes to `chSigKill` (the kill arm of the input goroutine), in source order. -/\ndef killSignals : List String := [%s]\n\n", strings.Join(sigs, ", "))
+	fmt.Fprintf(sb, "/-- What can keep that `signal.Notify` from being reached: enclosing conditions and earlier returns (\"\" = unconditional). -/\ndef killNotifyGuard : String := %s\n\n", ex.LeanStr(guard))
+}
+
 func startupSkeleton(c *ex.Ctx, vx *ast.File, sb *strings.Builder) {
 	life := map[string]bool{"openTty": true, "sendQueries": true, "enterAltScreen": true, "exitAltScreen": true,
 		"enableModes": true, "disableModes": true, "Suspend": true, "Resume": true, "Close": true}
